@@ -17,13 +17,14 @@ EXTENDS Naturals, Sequences, FiniteSets, TLC
 
 Kinds == {"int", "intList", "tokens", "tokenLists", "model", "modelList", "modelUnion", "anyType", "wildcardList",
           "attributes", "primUnion", "compound", "enum", "nillableInt", "requiredInt",
-          "hierarchy", "hierarchyList"}     \* a field typed with the BASE of a chain H0 <- H1 <- H2 <- H3 (each level adds a required field)
+          "hierarchy", "hierarchyList", "qname"}     \* a field typed with the BASE of a chain H0 <- H1 <- H2 <- H3 (each level adds a required field)
 
 \* JSON shapes (the harness materialises them; names are self-describing)
 Shapes == {"null", "true", "int", "float", "str", "numstr", "emptyList", "intList", "strList", "listOfIntLists", "listOfEmptyList",
            "emptyObj", "leafObj", "unknownKeyObj", "listOfLeafObj", "listOfEmptyObj", "listOfNull", "anyElementObj", "derivedObj",
            "strDict", "nestedList3",
-           "h0Obj", "h1Obj", "h2Obj", "h3Obj", "listOfHObjs"}  \* objects with exactly the fields of level n of the chain; one of each
+           "h0Obj", "h1Obj", "h2Obj", "h3Obj", "listOfHObjs",
+           "clarkStr", "clarkBrokenStr"}  \* objects with exactly the fields of level n of the chain; one of each
 
 Positions == {"root", "nested", "inList"}
 
@@ -47,6 +48,7 @@ Canonical(k, s) ==
     \* no type marker in the dictionary form: the decoder has to find the one class of the hierarchy whose fields fit
     [] k = "hierarchy"     -> s \in {"null", "h0Obj", "h1Obj", "h2Obj", "h3Obj"}
     [] k = "hierarchyList" -> s \in {"emptyList", "listOfHObjs"}
+    [] k = "qname"         -> s \in {"null", "str", "clarkStr"}
 
 \* C10: a scalar the declared type has no lexical form for.  The decoder keeps it (as its lexical form) with a
 \* ConverterWarning, or fails with ParserError when conversion warnings are configured to fail.
